@@ -19,6 +19,22 @@ def run(ctx):
     cases += cc.run_histories(ctx, impl, hists)
     ctx.samples = [dict(flavour=c[0], version=[c[1], c[2]], app_id=c[3], body=c[4]) for c in cases[:2] + cases[-2:]]
     mism = cc.correspond(ctx, impl, cases, dcases, oracle=True)
+    # configuration: the global "using hardware" setting must not change the codec
+    try:
+        from netqasm.runtime import settings as _st
+        _st.set_is_using_hardware(True)
+        nhw = 0
+        for c in [c for c in cases if c[5] in ("distinct", "boundary")] + cases[-60:]:
+            res = impl.run_ecase(c[0], c[1], c[2], c[3], c[4])
+            nhw += 1
+            ctx.note_case(("hw",) + tuple(map(str, c[:5])))
+            if res["bytes"] is None or res["oracle_ok"] is False:
+                ctx.violation("decode(encode(s)) != s on the implementation with set_is_using_hardware(True)",
+                              dict(flavour=c[0], version=[c[1], c[2]], app_id=c[3], body=c[4], got=res["dec"],
+                                   err=res["err"], setting="set_is_using_hardware(True)"))
+        ctx.coverage["cases_under_hardware_setting"] = nhw
+    finally:
+        _st.set_is_using_hardware(False)
     if mism and not ctx.violations:
         # model and implementation differ although the round-trip oracle held on these
         # inputs: the theorem no longer speaks about this code
